@@ -394,7 +394,7 @@ def rule_policy_rows(ctx):
     unsolicited record_size_limit."""
     from .common import spec_rows
     R = "C03.POLICY"
-    full = {"version": [(3, 3)], "result == None": [False]}
+    full = {"version": [(3, 3)], "result is None": [False]}
 
     def d(*ds):
         out = {}
@@ -653,6 +653,8 @@ RULES = [
     ("C03.VERSION", "quick", rule_version_range),
     ("C03.DH-GROUP", "quick", rule_dh_group),
     ("C03.KEYSIZE", "quick", rule_keysize_measure),
+    # both ends record the same encrypt-then-MAC flag (session, ticket): read from a state still pending
+    ("C03.ETM-SOURCE", "quick", borrowed("c13", "rule_pending_source", "C13.ETM-SOURCE", "C03.ETM-SOURCE")),
     ("C03.SH-GATES", "quick", rule_sh_gates),
     ("C03.RESUME-POLICY", "quick", rule_resume_policy),
     ("C03.SRV-PICK", "quick", rule_srv_pick),
